@@ -56,4 +56,6 @@ FocusBuild == {1, 4, 5, 6, 38}
 FocusShape == {1, 2, 5, 8, 29, 32, 37, 39, 40, 41, 42, 43, 44}
 \* component- and module-kinded requirements (API level)
 FocusWorld == 45..58
+\* two-digit versions, used types from track-less interfaces (0.0.x, pre-release), exports after a nested instance
+FocusMore == {1, 2, 5, 25, 26, 29, 32} \cup (59..66)
 ====
